@@ -582,6 +582,8 @@ def div(ctx, a, b):
         return toreal(x) / toreal(y)
     ta, oa, ia = split(a)
     tb, ob, ib = split(b)
+    if isinstance(a, P) and not isinstance(b, (P, float)) and not is_z(b) and not isinstance(b, bool) and b != 0:
+        return mul(a, Fraction(1) / Fraction(b))     # division by a finite non-zero constant keeps the infinity kind (inf / 2 = inf)
     if not is_z(tb) and not isinstance(tb, bool) and tb == 0 and not is_z(ib) and ib == 0:
         return float("nan")  # x/0 -> inf or nan: not finite
     ok = band(_fin_ok(oa, ia), _fin_ok(ob, ib))
